@@ -39,7 +39,7 @@ BUDGET_S = {'quick': 240, 'thorough': 900}
 
 
 def bounds(tier):
-    return {'definition_items': len(def_items()), 'generated_definitions': '%d seeded (recursive grammar, depth <= 3)' % (40 if tier == 'quick' else 1500), 'other_items': len(other_items()), 'type_variable_sizes': [1, 2]}
+    return {'definition_items': len(def_items()), 'generated_definitions': '%d seeded (recursive grammar, depth <= 3)' % (200 if tier == 'quick' else 1500), 'other_items': len(other_items()), 'type_variable_sizes': [1, 2]}
 
 
 def setup(tier, seed):
@@ -471,7 +471,7 @@ def gen_def(seed, j):
 
 def units(tier, seed):
     us = [('def', i) for i in range(len(def_items()))] + [('other', i) for i in range(len(other_items()))]
-    us += [('gen', (seed, j)) for j in range(40 if tier == 'quick' else 1500)]
+    us += [('gen', (seed, j)) for j in range(200 if tier == 'quick' else 1500)]
     random.Random(seed).shuffle(us)
     return us
 
